@@ -730,3 +730,27 @@ package crypto
 //@ ensures [value-z] old(in_len == 96 && !g1flagI(in)) && result == VALID ==> a.z[0] == cglobal(BLS12_381_pR) && a.z[1] == 0
 //@ ensures [value-y] old(in_len == 96 && !g1flagI(in)) && result == VALID ==> (fp2Sgn(fp2SqrtM(g2rhs(a.x))) == old((in[0]/32)%2) ==> a.y == fp2SqrtM(g2rhs(a.x))) && (fp2Sgn(fp2SqrtM(g2rhs(a.x))) != old((in[0]/32)%2) ==> a.y == fp2NegM(fp2SqrtM(g2rhs(a.x))))
 //@ loop 1 invariant 1 <= i && i <= 96 && forall(k, 1, i, in[k] == 0)
+
+//@ cfunc E1_to_affine nobody
+//@ requires res != nil && p != nil
+//@ assigns *res
+//@ ensures *res == e1Affine(old(*p))
+
+//@ cfunc E2_to_affine nobody
+//@ requires res != nil && p != nil
+//@ assigns *res
+//@ ensures *res == e2Affine(old(*p))
+
+//@ cfunc E1_write_bytes props C05 C09
+//@ requires a != nil && valid(out, 48)
+//@ assigns out[0:48]
+//@ ensures [infinity] old(e1IsInf(*a)) ==> g1infEnc(out)
+//@ ensures [flags] !old(e1IsInf(*a)) ==> g1flagC(out) && !g1flagI(out) && (out[0]/32)%2 == fpSgn(e1y(e1Affine(old(*a))))
+//@ ensures [x-coordinate] !old(e1IsInf(*a)) ==> g1x(out) == fpFromMont(e1x(e1Affine(old(*a))))
+
+//@ cfunc E2_write_bytes props C05 C09
+//@ requires a != nil && valid(out, 96)
+//@ assigns out[0:96]
+//@ ensures [infinity] old(e2IsInf(*a)) ==> g2infEnc(out)
+//@ ensures [flags] !old(e2IsInf(*a)) ==> g1flagC(out) && !g1flagI(out) && (out[0]/32)%2 == fp2Sgn(e2y(e2Affine(old(*a))))
+//@ ensures [x-coordinate-zcash-order] !old(e2IsInf(*a)) ==> g2x1(out) == fpFromMont(fp2c1(e2x(e2Affine(old(*a))))) && g2x0(out) == fpFromMont(fp2c0(e2x(e2Affine(old(*a)))))
